@@ -464,6 +464,9 @@ pub struct Scenario {
     /// scenarios (by generator index) to execute in the same process before this one: needed to
     /// reproduce a violation that depends on state the library kept from earlier calls
     pub prelude: Option<Prelude>,
+    /// execute up to this many times in one process until a violation shows (for violations that are
+    /// themselves nondeterministic, e.g. dependent on a randomised hash seed)
+    pub repeat: Option<u32>,
     pub prop: String,
     pub profile: String,
     pub seed: u64,
@@ -482,7 +485,7 @@ pub struct Scenario {
 
 impl Scenario {
     pub fn empty(prop: &str, profile: &str, seed: u64) -> Self {
-        Scenario { prelude: None, prop: prop.into(), profile: profile.into(), seed, knobs: String::new(), dirs: vec![], contents: vec![], files: vec![], clock: 1_700_000_000_000_000_000, actors: vec![], sched: vec![], faults: BTreeMap::new() }
+        Scenario { prelude: None, repeat: None, prop: prop.into(), profile: profile.into(), seed, knobs: String::new(), dirs: vec![], contents: vec![], files: vec![], clock: 1_700_000_000_000_000_000, actors: vec![], sched: vec![], faults: BTreeMap::new() }
     }
 
     pub fn text(&self) -> String {
@@ -491,6 +494,9 @@ impl Scenario {
         s.push_str(&format!("prop {}\n", self.prop));
         s.push_str(&format!("profile {}\n", self.profile));
         s.push_str(&format!("seed {}\n", self.seed));
+        if let Some(n) = self.repeat {
+            s.push_str(&format!("repeat {n}\n"));
+        }
         if let Some(p) = &self.prelude {
             s.push_str(&format!("prelude {} {} {} {} {}\n", p.prop, p.verif_seed, p.first, p.count, p.recheck_every));
         }
@@ -547,6 +553,7 @@ impl Scenario {
                 "profile" => sc.profile = tok.get(1).unwrap_or(&"").to_string(),
                 "seed" => sc.seed = tok.get(1).and_then(|x| x.parse().ok()).ok_or_else(|| err("bad seed".into()))?,
                 "knobs" => sc.knobs = tok[1..].join(" "),
+                "repeat" => sc.repeat = Some(tok.get(1).and_then(|x| x.parse::<u32>().ok()).ok_or_else(|| err("bad repeat".into()))?),
                 "prelude" => {
                     let n = |i: usize| tok.get(i).and_then(|x| x.parse::<u64>().ok()).ok_or_else(|| err("bad prelude".into()));
                     sc.prelude = Some(Prelude { prop: tok.get(1).unwrap_or(&"").to_string(), verif_seed: n(2)?, first: n(3)?, count: n(4)?, recheck_every: n(5)? });
